@@ -28,9 +28,11 @@ def run_case(case):
     X, y, Xd, yd, vals = space.build_frames(case)
     res = {"violations": [], "sample": dict(case)}
     viol = res["violations"]
-    kw = space.carver_kwargs(case, vals)
+    def kw():  # fresh argument objects for every estimator: the caller's lists must never be shared between them
+        return space.carver_kwargs(case, vals)
+
     try:
-        M = MulticlassCarver(**kw)
+        M = MulticlassCarver(**kw())
         if Xd is not None:
             M.fit(X, y, X_dev=Xd, y_dev=yd)
         else:
@@ -60,7 +62,7 @@ def run_case(case):
         yb = (y.astype(str) == ci).astype(int)
         ydb = (yd.astype(str) == ci).astype(int) if yd is not None else None
         try:
-            B = BinaryCarver(**kw)
+            B = BinaryCarver(**kw())
             if Xd is not None:
                 B.fit(X, yb, X_dev=Xd, y_dev=ydb)
             else:
